@@ -1,5 +1,6 @@
 """C17 - partially evaluating a domain is the same as supplying the parameters."""
 import json
+from ..pipeline import geo_sig
 
 RULE = ("every parameter-dependent expression TLC generates (primitives, boundaries, single boundary points, transforms with "
         "dependent vectors / rotation points, products, depth-1 Boolean combinations) x every non-empty subset of its free "
@@ -16,7 +17,8 @@ def run(ctx):
     else:
         scen = ctx.gen("Gen_Attr", "Gen_Attr_all", timeout=900)
         scen = [dict(s, dens=[], norm=False) for s in scen if s.get("bind")]
-        scen = scen[ctx.seed % 5::5] if ctx.quick else scen
+        if ctx.quick:
+            scen = ctx.stratified(scen, 0.2, key=lambda s: geo_sig(s["expr"], False) + "|" + ",".join(sorted(s["bind"])))
     traces = ctx.drive("geoattr", scen, timeout=3000)
     ctx.validate("Trace_C17", traces, timeout=3000)
     ctx.rule = RULE
